@@ -147,6 +147,9 @@ def run(tier, seed):
     for sp, o in mi[:: (6 if tier == "quick" else 2)]:
         for lst in ([2, 2, 4], [3, 1, 3, 5], [0, 0], [1, 1, 2, 40], [4, 2, 0]):
             li.append((sp, dict(o, absence=lst)))
+    for sp in F.unsorted_absence_specs():
+        li.append((sp, {"rule": "TSLACK", "max_time": 20}))
+        li.append((sp, {"rule": "TSLACK", "max_time": 20, "absence": [1]}))
     col.merge(stepcheck.explore(li, MONS, 0, 0, seed=seed))
     di = diff_items(tier)
     col.merge(engines.fanout(di, work_diff, seed=seed))
